@@ -81,6 +81,11 @@ impl Report {
         }
     }
 
+    /// how many violating executions have been recorded so far (all signatures)
+    pub fn violation_instances(&self) -> u64 {
+        self.violations.values().map(|v| v.count).sum()
+    }
+
     pub fn inconclusive(&mut self, why: impl Into<String>) {
         let w = why.into();
         if self.inconclusive.len() < 50 && !self.inconclusive.contains(&w) {
